@@ -230,4 +230,91 @@ theorem records_step (g : G) (t : Tid) :
       rw [step_call_some g i pc hp]
       exact ⟨_, rfl, call_records g.st pc⟩
 
+
+/-- every effective membership change is recorded by the region that makes it: the record names the
+group, contains the actor, and says whether it is a join or a leave -/
+theorem change_recorded (g : G) (t : Tid) (k : Key) (x : Nat)
+    (hch : ¬ (x ∈ membersOf (step g t).st k ↔ x ∈ membersOf g.st k)) :
+    ∃ p, (step g t).changes = g.changes ++ [p] ∧ (p.s, p.g) = k ∧ x ∈ p.actors ∧
+      (p.isJoin = true ↔ x ∈ membersOf (step g t).st k) ∧ p.to = recipients g.st k := by
+  cases t with
+  | ex b r =>
+    by_cases hg : r = .mark ∧ b ∈ g.st.dead
+    · rw [step_ex_guard g b r hg] at hch; exact absurd Iff.rfl hch
+    · rw [step_ex g b r hg] at hch ⊢
+      have hm := exreg_members g.st b (phaseOf g b) r k x
+      replace hch : ¬ (x ∈ membersOf (fstep b ⟨g.st, phaseOf g b⟩ r.toFOp).st k ↔ x ∈ membersOf g.st k) := hch
+      rw [hm] at hch
+      cases r with
+      | lvKey k0 =>
+        cases hph : phaseOf g b with
+        | leaving mk rm =>
+          rw [hph] at hch hm
+          by_cases c : k0 ∈ mk
+          · simp only [c, ↓reduceIte, specLin] at hch hm
+            have hx : x ∈ membersOf g.st k ∧ k = k0 ∧ x = b := by
+              by_cases h1 : x ∈ membersOf g.st k
+              · by_cases h2 : k = k0 ∧ x = b
+                · exact ⟨h1, h2⟩
+                · exact absurd ⟨fun h => h.1, fun h => ⟨h, h2⟩⟩ hch
+              · exact absurd ⟨fun h => h.1, fun h => absurd h h1⟩ hch
+            obtain ⟨hx1, rfl, rfl⟩ := hx
+            have hlk : (leaveKey g.st x k).2 = some (k, recipients g.st k) := by
+              unfold leaveKey; rw [if_pos hx1]
+            refine ⟨recPending x (k, recipients g.st k), ?_, rfl, by simp [recPending], ?_, rfl⟩
+            · simp only [exRecs, c, ↓reduceIte, hlk, Option.map_some, Option.toList_some]
+            · show (false = true ↔ x ∈ membersOf (fstep x ⟨g.st, Phase.leaving mk rm⟩ (ExReg.lvKey k).toFOp).st k)
+              rw [hm]; simp
+          · exfalso; apply hch; simp [c, specLin]
+        | _ => rw [hph] at hch; exfalso; apply hch; simp [specLin]
+      | _ => exfalso; apply hch; simp [specLin]
+  | call i =>
+    cases hp : g.thr[i]? with
+    | none => rw [step_call_none g i hp] at hch; exact absurd Iff.rfl hch
+    | some pc =>
+      have hm := lin_step g (.call i) k x
+      rw [hm] at hch
+      rw [step_call_some g i pc hp] at hm ⊢
+      simp only [linOf, hp] at hch hm
+      cases pc with
+      | joinFiltered s g' as =>
+        simp only [specLin] at hch hm
+        have hx : x ∉ membersOf g.st k ∧ k = (s, g') ∧ x ∈ as ∧ x ∉ g.st.dead := by
+          by_cases h1 : x ∈ membersOf g.st k
+          · exact absurd ⟨fun _ => h1, fun h => Or.inl h⟩ hch
+          · by_cases h2 : k = (s, g') ∧ x ∈ as ∧ x ∉ g.st.dead
+            · exact ⟨h1, h2⟩
+            · exact absurd ⟨fun h => h.elim id (fun z => absurd z h2), fun h => Or.inl h⟩ hch
+        obtain ⟨hx1, rfl, hx2, hx3⟩ := hx
+        have hne : as.filter (alive g.st) ≠ [] := by
+          intro e
+          have : x ∈ as.filter (alive g.st) := (mem_filter_alive g.st as x).mpr ⟨hx2, hx3⟩
+          rw [e] at this; cases this
+        have hje : (joinEntry g.st s g' as).2 = some ⟨true, s, g', as.filter (alive g.st), recipients g.st (s, g')⟩ := by
+          simp [joinEntry, hne]
+        refine ⟨⟨true, s, g', as.filter (alive g.st), recipients g.st (s, g')⟩, ?_, rfl,
+          (mem_filter_alive g.st as x).mpr ⟨hx2, hx3⟩, ?_, rfl⟩
+        · simp only [callStep, hje, Option.toList_some]
+        · simp only [true_iff]; exact hm.mpr (Or.inr ⟨rfl, hx2, hx3⟩)
+      | leave s g' as =>
+        simp only [specLin] at hch hm
+        have hx : x ∈ membersOf g.st k ∧ k = (s, g') ∧ x ∈ as := by
+          by_cases h1 : x ∈ membersOf g.st k
+          · by_cases h2 : k = (s, g') ∧ x ∈ as
+            · exact ⟨h1, h2⟩
+            · exact absurd ⟨fun h => h.1, fun h => ⟨h, h2⟩⟩ hch
+          · exact absurd ⟨fun h => h.1, fun h => absurd h h1⟩ hch
+        obtain ⟨hx1, rfl, hx2⟩ := hx
+        cases hgm : get g.st.map (s, g') with
+        | none => unfold membersOf at hx1; rw [hgm] at hx1; cases hx1
+        | some gs =>
+          have hle : (leaveEntry g.st s g' as).2 = some ⟨false, s, g', as, recipients g.st (s, g')⟩ := by
+            simp [leaveEntry, hgm]
+          refine ⟨⟨false, s, g', as, recipients g.st (s, g')⟩, ?_, rfl, hx2, ?_, rfl⟩
+          · simp only [callStep, hle, Option.toList_some]
+          · constructor
+            · intro h; cases h
+            · intro h; exact absurd ⟨rfl, hx2⟩ (hm.mp h).2
+      | _ => exfalso; apply hch; simp [specLin]
+
 end Pg.Conc
